@@ -93,7 +93,9 @@ int64_t now_ns() { return g_now; }
 int64_t mono_base() { return g_mono0; }
 int64_t real_base() { return g_real0; }
 void set_time_base(int64_t m, int64_t r) { g_mono0 = m; g_real0 = r; }
-void advance_ns(int64_t d) { if (d > 0) g_now += d; }
+static uint64_t g_step_at_time_advance;      // scheduling step at which the virtual clock last moved
+void advance_ns(int64_t d) { if (d > 0) { g_now += d; g_step_at_time_advance = g_step; } }
+uint64_t steps_since_time_advance() { return g_step - g_step_at_time_advance; }
 void faults_enable(bool on) { g_faults_on = on; }
 void set_deadlock_handler(void (*h)(void)) { g_deadlock_handler = h; }
 
@@ -219,7 +221,7 @@ static Task *choose_forced(Task *self, uint32_t site)
 			g_teardown = true;
 			return NULL;
 		}
-		if (dl > g_now) g_now = dl;
+		if (dl > g_now) { g_now = dl; g_step_at_time_advance = g_step; }
 		if (g_cfg.vtime_cap_ns >= 0 && g_now > g_cfg.vtime_cap_ns) {
 			Result &r = result();
 			if (r.verdict == V_OK) {
@@ -290,7 +292,7 @@ void sched_begin(const RunSpec &spec, const SchedCfg &cfg)
 	r_sched = stream(spec.seed, "sched");
 	r_fault = stream(spec.seed, "fault");
 	g_step = g_handoffs = 0;
-	g_now = 0;
+	g_now = 0; g_step_at_time_advance = 0;
 	g_teardown = g_finish = false;
 	g_active = false;
 	g_faults_on = true;
@@ -400,7 +402,9 @@ static void step_tick(Task *t, int kind, uint32_t site)
 		if (r.verdict == V_OK) {
 			r.verdict = V_INCONCLUSIVE;
 			snprintf(r.cls, sizeof r.cls, "inconclusive");
-			snprintf(r.site, sizeof r.site, "step-cap");
+			// a run that spent its last tens of thousands of steps without the virtual clock moving at all is not merely
+			// long: somebody is in a loop that costs no time (harnesses decide what that means for their property)
+			snprintf(r.site, sizeof r.site, steps_since_time_advance() > 25000 ? "step-cap-no-time-progress" : "step-cap");
 		}
 		g_teardown = true;
 		task_exit_now();
